@@ -371,13 +371,43 @@ func scaleWidth(src []byte, w string) ([]byte, error) {
 	}
 	f.Name.Name = "safemath" + w
 	scaledConsts := map[string]int{}
+	scaledLits := map[*ast.BasicLit]bool{}
+	var unscalable []string
+	usesW := false
 	ast.Inspect(f, func(n ast.Node) bool {
 		switch x := n.(type) {
 		case *ast.Ident:
 			if x.Name == "int" || x.Name == "int64" || x.Name == "int32" {
 				x.Name = "int" + w
 			}
+		case *ast.BinaryExpr:
+			// shift counts that are fractions of the 64-bit width keep their fraction
+			if x.Op == token.SHL || x.Op == token.SHR {
+				if lit, ok := x.Y.(*ast.BasicLit); ok && lit.Kind == token.INT {
+					bits, _ := strconv.Atoi(w)
+					n, _ := strconv.Atoi(lit.Value)
+					m := map[int]int{64: bits, 63: bits - 1, 62: bits - 2, 32: bits / 2, 31: bits/2 - 1, 33: bits/2 + 1, 16: bits / 4, 15: bits/4 - 1, 8: bits / 8}
+					if v, ok := m[n]; ok {
+						lit.Value = strconv.Itoa(v)
+						scaledLits[lit] = true
+					}
+				}
+			}
+		case *ast.BasicLit:
+			if x.Kind == token.INT && !scaledLits[x] {
+				if n, err := strconv.ParseInt(x.Value, 0, 64); err != nil || n >= 8 {
+					unscalable = append(unscalable, "integer literal "+x.Value)
+				}
+			}
 		case *ast.SelectorExpr:
+			if id, ok := x.X.(*ast.Ident); ok && id.Name == "bits" {
+				if x.Sel.Name == "UintSize" {
+					id.Name, x.Sel.Name = "scaled", "W"
+					usesW = true
+				} else {
+					unscalable = append(unscalable, "bits."+x.Sel.Name)
+				}
+			}
 			if id, ok := x.X.(*ast.Ident); ok && id.Name == "math" {
 				switch x.Sel.Name {
 				case "MaxInt", "MaxInt64", "MaxInt32":
@@ -397,12 +427,19 @@ func scaleWidth(src []byte, w string) ([]byte, error) {
 		}
 		return true
 	})
+	if len(unscalable) > 0 {
+		return nil, fmt.Errorf("width substitution does not understand: %s", strings.Join(unscalable, ", "))
+	}
 	var b bytes.Buffer
 	if err := printer.Fprint(&b, fset, f); err != nil {
 		return nil, err
 	}
 	b.WriteString("\nconst GenError = \"\"\n")
 	out := b.String()
+	if usesW {
+		out = strings.ReplaceAll(out, "scaled.W", w)
+		out = strings.ReplaceAll(out, "\t\"math/bits\"\n", "")
+	}
 	// scaled.U<k> -> (1<<k - 1)
 	for name, bits := range scaledConsts {
 		out = strings.ReplaceAll(out, "scaled."+name, fmt.Sprintf("(1<<%d - 1)", bits))
